@@ -35,6 +35,7 @@ def table_cases(rng, n_tables, tier):
         if near and t % 4 == 1: mfm = rng.choice(near)
         cfg = dict(min_freq=0.04, min_freq_mod=mfm, max_n_mod=rng.choice([2, 3, 4]), sort_by=rng.choice(['tschuprowt', 'cramerv']),
                    dropna=rng.choice([True, True, False]), output_dtype=rng.choice(['float', 'str']))
+        if t % 9 == 4: cfg['verbose'] = True          # (output silenced by the harness)
         if t % 5 == 2: cfg['str_nan'] = 'MISSING'; cfg['str_default'] = 'AUTRES'          # custom markers (the oracle's Discretizer keeps the default ones)
         reindex(case, rng, t)
         cases.append((case, cfg))
@@ -60,6 +61,7 @@ def random_cases(rng, n):
         case = zoo.random_case(rng)
         cfg = dict(rng.choice(zoo.CONFIGS)); cfg['min_freq_mod'] = rng.choice([None, None, cfg['min_freq'], 0.05, 0.0])
         if len(out) % 4 == 1: cfg['str_nan'] = 'MISSING'; cfg['str_default'] = 'AUTRES'
+        if len(out) % 5 == 2: cfg['verbose'] = True
         reindex(case, rng, len(out))
         out.append((case, cfg))
     return out
